@@ -134,7 +134,7 @@ struct Graph {
                 case 11: { what = "tag-units"; c.op(what); Tag t; MultiTag m; if (hb && r.chance(0.5) && anyTag(b, t)) { if (r.chance(0.3)) t.units(nix::none); else t.units(std::vector<std::string>(t.position().size(), r.chance(0.5) ? "s" : "mV")); } else if (hb && anyMTag(b, m)) { if (r.chance(0.3)) m.units(nix::none); else m.units({r.chance(0.5) ? "us" : "kHz"}); } break; }
                 case 12: { what = "entity-attrs"; c.op(what); Source so; Group g; DataFrame df; Tag t; int w = (int)r.u(4); if (!hb) break; if (w == 0 && anySource(b, so)) { if (r.chance(0.5)) so.definition("sodef " + str(r.u(5))); else so.type("stype " + str(r.u(3))); } else if (w == 1 && anyGroup(b, g)) { if (r.chance(0.5)) g.definition("gdef"); else g.definition(nix::none); } else if (w == 2 && anyFrame(b, df)) df.definition("dfdef " + str(r.u(4))); else if (w == 3 && anyTag(b, t)) { if (r.chance(0.5)) t.type("ttype " + str(r.u(3))); else t.definition("tdef"); } break; }
                 case 13: { what = "frame-write"; c.op(what); DataFrame df; if (hb && anyFrame(b, df) && df.rows()) { std::vector<Variant> row; for (auto &cd : df.columns()) row.push_back(gen_values(cd.dtype, 1)[0]); df.writeRow(r.u(df.rows()), row); } break; }
-                case 14: { what = "array-extent"; c.op(what); DataArray a; if (hb && anyArray(b, a)) { NDSize e = a.dataExtent(); if (e.size()) { e[r.u(e.size())] = 1 + r.u(6); a.dataExtent(e); } } break; }
+                case 14: { what = "array-extent"; c.op(what); DataArray a; if (hb && anyArray(b, a)) { NDSize e = a.dataExtent(); bool huge = false; for (size_t q = 0; q < e.size(); q++) if (e[q] > (1u << 20)) huge = true; if (e.size() && !huge) { e[r.u(e.size())] = 1 + r.u(6); a.dataExtent(e); } } break; }
                 case 0: { what = "definition"; c.op(what); if (hb) { if (r.chance(0.3)) b.definition(nix::none); else b.definition("def " + str(r.u(9))); } break; }
                 case 1: { what = "array-attrs"; c.op(what); DataArray a; if (hb && anyArray(b, a)) { int q = (int)r.u(6); if (q == 0) a.label("lab" + str(r.u(4))); else if (q == 1) a.unit(r.chance(0.5) ? "mV" : "uA"); else if (q == 2) a.expansionOrigin((double)r.range(-3, 3)); else if (q == 3) a.polynomCoefficients({1.0, (double)r.range(1, 4)}); else if (q == 4) a.label(nix::none); else a.type("changed type"); } break; }
                 case 2: { what = "tag-attrs"; c.op(what); Tag t; if (hb && anyTag(b, t)) { if (r.chance(0.5)) { std::vector<double> p = t.position(); for (auto &x : p) x += 0.5; t.position(p); } else t.extent(nix::none); } break; }
